@@ -373,7 +373,7 @@ class Discharger:
 
     # -------------------------------------------------------------- dispatcher
     def discharge(self, f, b, t, kind, what):
-        for rule in (self.d_arity, self.d_arity_user, self.d_dominating_test, self.d_checked_key, self.d_nonempty, self.d_container_variant,
+        for rule in (self.d_arity, self.d_arity_user, self.d_dominating_test, self.d_checked_key, self.d_nonempty, self.d_container_variant, self.d_variant_runs,
                      self.d_table, self.d_counter, self.d_total_cast, self.d_const_index, self.d_borrow, self.d_known_arith,
                      self.d_const_input, self.d_div_guarded):
             r = rule(f, b, t, kind, what)
@@ -407,6 +407,48 @@ class Discharger:
             else:
                 return None
         return None
+
+    # -------------------------------------------------------------- D-variant-runs
+    def d_variant_runs(self, f, b, t, kind, what):
+        """`unwrap` / `expect` in a function whose arguments are enums of the crate: the function is evaluated abstractly
+        (machine.py) once per combination of argument variants with opaque payloads; if every run completes and none reaches a
+        failing unwrap, the site cannot fail for any argument (a variant is all such a function can branch on)."""
+        if kind != "unwrap" or f.arg_count == 0 or f.arg_count > 2 or "{closure" in f.name:
+            return None
+        from . import machine, absint
+        import itertools
+        choices = []
+        for i in range(1, f.arg_count + 1):
+            ty = (f.local_ty(i) or "").replace("&mut ", "").replace("&", "").strip()
+            base = mir.norm(ty).split("<")[0]
+            try:
+                vs = self.fb.variants(base)
+            except Exception:
+                return None
+            if not vs or len(vs) > 8:
+                return None
+            adt = self.fb.adt(base)
+            opts = []
+            for vi, vn in vs:
+                nf = len(adt["variants"][vi]["fields"])
+                e = absint.Enum(vi, [machine.Val("payload-%s-%d" % (vn, k)) if hasattr(machine, "Val") else object() for k in range(nf)])
+                e.name, e.adt = vn, base
+                opts.append(e)
+            choices.append(opts)
+        n = 0
+        for combo in itertools.product(*choices):
+            if n > 24:
+                return None
+            n += 1
+            mc = machine.Machine(self.fb, max_visits=6, budget=300)
+            try:
+                mc.run(f, list(combo))
+            except Exception:
+                return None
+            if any(e[0] == "panic" for e in mc.events):
+                return None
+        return (True, "D-variant-runs", "evaluated for every combination of the variants of its enum arguments (%d), the function never "
+                "reaches a failing unwrap" % n)
 
     # -------------------------------------------------------------- D-container-variant
     def d_container_variant(self, f, b, t, kind, what):
